@@ -36,6 +36,11 @@ def expression_set(tier):
     twins += [("exists", "tags", "x"), ("exists", "fields", "x"), ("exists", "tags", "k"), ("exists", "fields", "k"),
               ("cmp", "tags", ("x",), "==", None), ("cmp", "fields", ("x",), "==", None), ("cmp", "tags", ("k",), "!=", None), ("cmp", "fields", ("k",), "!=", None),
               ("noop", "tags", ("k",)), ("noop", "fields", ("k",))]
+    # a key that contains the character a rendering of paths would join keys with, next to the path of those keys
+    for sep in (".", "/", ","):
+        twins += [("cmp", "tags", ("k" + sep + "j",), "==", "a"), ("cmp", "fields", ("x" + sep + "y",), ">=", 2)]
+    twins += [("cmp", "tags", ("k", "j"), "==", "a"), ("cmp", "fields", ("x", "y"), ">=", 2),
+              ("noop", "tags", ("k.j",)), ("noop", "tags", ("k", "j")), ("noop", "fields", ("x.y",)), ("noop", "fields", ("x", "y"))]
     # a bool comparison value next to the equal int / float (True == 1 == 1.0 and they hash alike)
     for op in ("==", "!=", ">="):
         twins += [("cmp", "fields", ("x",), op, True), ("cmp", "fields", ("x",), op, 1), ("cmp", "fields", ("x",), op, 1.0), ("cmp", "fields", ("x",), op, False), ("cmp", "fields", ("x",), op, 0)]
